@@ -276,7 +276,12 @@ def run_round(acc, spec, rnd, rng, slow=None, fault=None, late=None, slowsend=Fa
         sock.bind(("127.0.0.1", 0))
         port = sock.getsockname()[1]
         sock.close()
-        srv = TCPServer("127.0.0.1", port, s.protocol)
+        # every other round the manager is bound to the name "localhost" (the default of
+        # its --bind option) rather than to the address; odd clients then try the IPv6
+        # loopback first and fall back to IPv4, as a resolver that lists ::1 first would:
+        # however many listeners there are, there is one device
+        by_name = (rnd % 2 == 0)
+        srv = TCPServer("localhost" if by_name else "127.0.0.1", port, s.protocol)
         t = threading.Thread(target=lambda: _quiet(srv.run), daemon=True)
         t.start()
         t0 = time.time()
@@ -353,7 +358,20 @@ def run_round(acc, spec, rnd, rng, slow=None, fault=None, late=None, slowsend=Fa
                 rec.add("call", rid=rid, client=c)
                 data = None
                 try:
-                    cs = socket.create_connection(("127.0.0.1", port), timeout=60 + (slow or 0))
+                    cs = None
+                    for addr in (("::1", "127.0.0.1") if by_name and c % 2 == 1
+                                 else ("127.0.0.1",)):
+                        try:
+                            cs = socket.create_connection((addr, port),
+                                                          timeout=60 + (slow or 0))
+                            if addr == "::1":
+                                rec.add("ipv6", rid=rid, client=c)
+                            break
+                        except OSError:
+                            if addr == "127.0.0.1":
+                                raise
+                    if by_name and c % 2 == 1:
+                        rec.add("tried-ipv6-first", rid=rid, client=c)
                     cs.settimeout(60 + (slow or 0))
                     if slowsend and c % 2 == 1:
                         # connected, but the request line comes later (in one piece or in
@@ -428,6 +446,10 @@ def run_round(acc, spec, rnd, rng, slow=None, fault=None, late=None, slowsend=Fa
                 break
             blocks[cur].append(e["e"])
             acc.count("apdus_attributed")
+        elif e["k"] == "tried-ipv6-first":
+            acc.count("requests_that_tried_the_ipv6_loopback_first")
+        elif e["k"] == "ipv6":
+            acc.count("requests_served_over_ipv6")
     # (c)+(d) replies
     for rid, (status, kind, data) in sorted(results.items()):
         acc.evaluations += 1
